@@ -606,6 +606,10 @@ func runGroups(r *mon.Run, groups []GroupCase, orders int, verifyAll bool) []*pr
 }
 
 func main() {
+	if args, ok := mon.IsChildInvocation(); ok && len(args) >= 4 && args[0] == "round1" {
+		round1Child(args)
+		return
+	}
 	r := mon.Start("C13")
 	if p := mon.ReplayArg(); p != "" {
 		v, err := mon.LoadReplay(p)
@@ -629,6 +633,19 @@ func main() {
 			os.Exit(2)
 		}
 		r.Seed = v.Seed
+		if w.Path == "round1" {
+			var rw Round1Witness
+			var rwrap struct {
+				Case *Round1Witness `json:"case"`
+			}
+			json.Unmarshal(v.Witness, &rwrap)
+			if rwrap.Case != nil {
+				rw = *rwrap.Case
+			} else {
+				json.Unmarshal(v.Witness, &rw)
+			}
+			round1Replay(r, rw)
+		}
 		if w.Msg != "" {
 			w.Group.Msgs = []string{w.Msg}
 		}
@@ -641,6 +658,10 @@ func main() {
 		}
 		r.Finish(mon.Coverage{Evaluations: ev, DistinctNontrivial: ev, Rule: "replay of one recorded group (all subsets of size >= k for the recorded message)"})
 	}
+
+	// production collector (round-1 handler) in child processes, alongside the in-process phase
+	r1done := make(chan []mon.ChildResult, 1)
+	go func() { r1done <- r.RunChildren(round1Specs(r), r.Pick(8, 6)) }()
 
 	d := setup()
 	fresh := r.Pick(3, 100)
@@ -678,20 +699,27 @@ func main() {
 		r.Sample(map[string]interface{}{"n": p.gc.N, "k": p.k, "kind": p.gc.Kind, "first_ids": ids, "msg": p.gc.Msgs[0],
 			"group_signature": hex.EncodeToString(p.expect[0]), "subsets": len(masksFor(p.gc.N, p.k))})
 	}
+	for _, res := range <-r1done {
+		r.Absorb(res, "C13:round1")
+	}
 	cleanup(d)
 
-	evals := r.Get("recoveries_threshold") + r.Get("recoveries_all_shares") + r.Get("generator_runs")
+	evals := r.Get("recoveries_threshold") + r.Get("recoveries_all_shares") + r.Get("generator_runs") + r.Get("round1_sequences")
 	r.Finish(mon.Coverage{
 		Evaluations:        evals,
-		DistinctNontrivial: int64(r.DistinctCount("subset")),
+		DistinctNontrivial: int64(r.DistinctCount("subset") + r.DistinctCount("round1_subset")),
 		Rule: "for n=3..10, k=GetGroupK(n): groups run through the node's DKG (VerifDKG) with seeded fresh member keys (ids derived by the node, most >= curve order) " +
 			"and adversarial ids (1..n; pairs differing only in bit 255; ids in [r,2^256) incl. r+1 and 2^256-1; mixtures; one id = r; two ids congruent mod r), random dealer delivery orders; " +
 			"per group and 3 messages (32-byte, short, long) ALL subsets of size >= k: RecoverGroupSignature(threshold k) in 3 insertion orders, RecoverGroupSignature(threshold |S|), " +
 			"model.GroupSignGenerator.AddWitnessSign in a random arrival order; each result byte-compared with Sign(sum of dealer constant terms mod r, msg) and verified under AggregatePubkeys(dealer pubkeys). " +
-			"Non-trivial: subset of size >= k with k >= 2; distinct by (group, subset). Subsets are exhaustive per group; groups and messages are sampled",
+			"Non-trivial: subset of size >= k with k >= 2; distinct by (group, subset). Subsets are exhaustive per group; groups and messages are sampled. " +
+			"Production collector: for further DKG groups (fresh/small/georder/topbit/mixed ids) the members' honest ConsensusVerifyMessages of sampled subsets (sizes k, k+1, .., n; all or many of size k) are fed to the real round-1 handler " +
+			"(logical.round1.Update via VerifNewRound1, public shares looked up through GroupCreateProcessor/JoinedGroupStorage) in random arrival orders; after exactly k shares the round must have recovered and " +
+			"Header().Signature / Header().Random must equal Sign(sum, block hash) / Sign(sum, previous beacon); round2.checkSignature must accept",
 		Assumptions: []string{"BLS signatures are unique: the only valid group signature is Sign(sum of constant terms, msg)",
 			"crypto-random k-subset choice and Go map order inside RecoverGroupSignature are uncontrolled extra diversity",
-			"logical.groupSignGenerator (unexported, same code as model.GroupSignGenerator) is not driven directly"},
-		MustObserve: []string{"dkg_runs", "share_verifications", "gpk_checks", "recoveries_threshold", "recoveries_random_k_subset", "recoveries_all_shares", "generator_runs", "recovered_verifications", "groups_subsets_exhaustive"},
+			"logical.groupSignGenerator is driven through round1.Update only (honest messages; Byzantine senders are C15's subject)"},
+		MustObserve: []string{"dkg_runs", "share_verifications", "gpk_checks", "recoveries_threshold", "recoveries_random_k_subset", "recoveries_all_shares", "generator_runs", "recovered_verifications", "groups_subsets_exhaustive",
+			"round1_groups", "round1_sequences", "round1_messages", "round1_recoveries_checked"},
 	})
 }
